@@ -236,3 +236,31 @@ def m_c18_invalid_nested_brackets(f, rec):
 def m_c18_nested_patterns(f, rec):
     k = rec["case"].get("family") or []
     return len(k) == 3 and k[0] == "nest" and k[1].startswith("pattern:")
+
+
+_FSTR = re.compile(r"(?i)(?:f|fr|rf)['\"]")
+
+
+def _cpy_msg(rec):
+    return (((rec.get("detail") or {}).get("cpython") or {}).get("msg") or "")
+
+
+def m_c02_fstring_single_rbrace(f, rec):
+    src = rec["case"]["src"]
+    return bool(_FSTR.search(src)) and _cpy_msg(rec).startswith("f-string: single '}' is not allowed")
+
+
+def m_c02_fstring_backslash_brace(f, rec):
+    src = rec["case"]["src"]
+    return bool(_FSTR.search(src)) and "\\{" in src
+
+
+def m_c02_fstring_unclosed_nested_spec(f, rec):
+    """a replacement field inside a format spec is not closed: the spec is kept as literal text, so the braces never have to match"""
+    src = rec["case"]["src"]
+    if not _FSTR.search(src):
+        return False
+    if not re.search(r":[^{}'\"]*\{", src):
+        return False
+    m = _cpy_msg(rec)
+    return "does not match opening parenthesis" in m or "was never closed" in m or "expecting '}'" in m or "nested too deeply" in m or "required for Constant" in m
